@@ -1052,15 +1052,26 @@ pub enum AppearanceStreamEntry {
     Single(FormXObject),
     Dict(HashMap<Name, AppearanceStreamEntry>)
 }
-impl Object for AppearanceStreamEntry {
-    fn from_primitive(p: Primitive, resolve: &impl Resolve) -> Result<Self> {
+impl AppearanceStreamEntry {
+    /// an appearance is a stream, or a dictionary of streams by appearance state: `depth` bounds the
+    /// dictionaries inside dictionaries a file may pile up (each level is stack, on top of nested loads)
+    fn from_primitive_depth(p: Primitive, resolve: &impl Resolve, depth: usize) -> Result<Self> {
         let id = match p {
             Primitive::Reference(r) => Some(r),
             _ => None
         };
         let p = p.resolve(resolve)?;
         let decode = || match p {
-            p @ Primitive::Dictionary(_) => Object::from_primitive(p, resolve).map(AppearanceStreamEntry::Dict),
+            Primitive::Dictionary(dict) => {
+                if depth == 0 {
+                    bail!("appearance dictionaries are nested too deeply");
+                }
+                let mut entries = HashMap::new();
+                for (key, val) in dict.iter() {
+                    entries.insert(key.clone(), Self::from_primitive_depth(val.clone(), resolve, depth - 1)?);
+                }
+                Ok(AppearanceStreamEntry::Dict(entries))
+            }
             p @ Primitive::Stream(_) => Object::from_primitive(p, resolve).map(AppearanceStreamEntry::Single),
             p => Err(PdfError::UnexpectedPrimitive {expected: "Dict or Stream", found: p.get_debug_name()})
         };
@@ -1069,6 +1080,11 @@ impl Object for AppearanceStreamEntry {
             Some(r) => resolve.with_loading(r, decode),
             None => decode()
         }
+    }
+}
+impl Object for AppearanceStreamEntry {
+    fn from_primitive(p: Primitive, resolve: &impl Resolve) -> Result<Self> {
+        Self::from_primitive_depth(p, resolve, 4)
     }
 }
 impl ObjectWrite for AppearanceStreamEntry {
